@@ -536,7 +536,9 @@ def camp_c06(rnd, tier):
         o = b.newb(kind, "default")
         bit_rs_queries(b, o, Seqn.from_values([]), rnd)
     # positions beyond 2^32
-    big_bits(b, rnd, ["RSN", "RSW"], nobj=1 if tier == "quick" else 2)
+    # (a leading run of 2^32 ones takes ~10 s to build bit by bit: one kind in the quick tier)
+    big_bits(b, rnd, ["RSN", "RSW"], nobj=1 if tier == "quick" else 2, fills=(0,))
+    big_bits(b, rnd, [rnd.choice(["RSN", "RSW"])] if tier == "quick" else ["RSN", "RSW"], fills=(1,))
     return b
 
 
@@ -605,35 +607,40 @@ def darray_inputs(rnd, tier):
     return out
 
 
-def big_bits(b, rnd, kinds, nobj=1):
-    """bit structures whose tail lies beyond position 2^32 (`base` leading zeros): every answer is
-    that of the tail shifted by base; 32-bit truncation of a stored or computed position shows"""
+def big_bits(b, rnd, kinds, nobj=1, fills=(0,)):
+    """bit structures whose tail lies beyond position 2^32 (a leading run of `base` zeros or ones):
+    every answer is that of the tail shifted by base; 32-bit truncation of a stored or computed
+    position or counter shows"""
     for _ in range(nobj):
-        base = (1 << 32) + rnd.choice([0, 1, 5, 511, 70001])
-        bit = 1
-        runs = darray_group(rnd, rnd.choice(["sparse", "exact_sparse"]), bit) + darray_group(rnd, "dense", bit) \
-            + darray_group(rnd, "sparse", bit) + darray_group(rnd, rnd.choice(["partial", "partial_span65536"]), bit) + [([0], rnd.choice([0, 3, 700]))]
-        s = Seqn.from_runs(runs)
-        vals = s.values()
-        n, ones = len(vals), sum(vals)
-        zeros = n - ones
-        for kind in kinds:
-            b.reset()
-            o = b.newbig(kind, base, s)
-            b.metabig(o)
-            rel = sorted(set([-70000, -513, -1, 0, 1, 2, 63, 64, 511, 512, n // 2, n - 2, n - 1, n, n + 1, n + 70] + [rnd.randrange(n) for _ in range(12)]))
-            b.qbig(o, "get", rel)
-            if kind in ("RSN", "RSW"):
-                b.qbig(o, "rank1", rel)
-                b.qbig(o, "rank0", rel)
-            if kind in ("RSN", "RSW", "DA0", "DA1"):
-                ks = sorted(set([0, 1, 2, 31, 32, 1023, 1024, 1025, 2047, 2048, ones // 2, ones - 2, ones - 1, ones, ones + 1] + [rnd.randrange(max(1, ones)) for _ in range(12)]))
-                b.qbig(o, "select1", [k for k in ks if k >= 0], form="abs")
-            if kind in ("RSN", "RSW", "DA1"):
-                b.qbig(o, "select0", [0, 1, 1023, 1024, 65536, (1 << 30) - 1], form="abs")
-                js = sorted(set([-2, -1, 0, 1, 2, zeros // 2, zeros - 1, zeros, zeros + 1] + [rnd.randrange(max(1, zeros)) for _ in range(8)]))
-                b.qbig(o, "select0", js, form="rel")
-            b.drop(o)
+        for fill in fills:
+            base = (1 << 32) + rnd.choice([0, 1, 5, 511, 70001])
+            bit = 1 - fill      # the rare bit of the tail forms the dense / sparse groups
+            runs = darray_group(rnd, rnd.choice(["sparse", "exact_sparse"]), bit) + darray_group(rnd, "dense", bit) \
+                + darray_group(rnd, "sparse", bit) + darray_group(rnd, rnd.choice(["partial", "partial_span65536"]), bit) + [([fill], rnd.choice([0, 3, 700]))]
+            s = Seqn.from_runs(runs)
+            vals = s.values()
+            n = len(vals)
+            cnt = {1: sum(vals), 0: n - sum(vals)}
+            for kind in kinds:
+                b.reset()
+                o = b.newbig(kind, base, s, fill=fill)
+                b.metabig(o)
+                rel = sorted(set([-70000, -513, -1, 0, 1, 2, 63, 64, 511, 512, n // 2, n - 2, n - 1, n, n + 1, n + 70] + [rnd.randrange(n) for _ in range(12)]))
+                b.qbig(o, "get", rel)
+                if kind in ("RSN", "RSW"):
+                    b.qbig(o, "rank1", rel)
+                    b.qbig(o, "rank0", rel)
+                for bb in (1, 0):
+                    m = "select%d" % bb
+                    if kind in ("BV", "BVM") or (bb == 0 and kind == "DA0"):
+                        continue
+                    c = cnt[bb]
+                    ks = sorted(set([0, 1, 2, 31, 32, 1023, 1024, 1025, 2047, 2048, 65536, c // 2, c - 2, c - 1, c, c + 1, (1 << 30) - 1]
+                                    + [rnd.randrange(max(1, c)) for _ in range(12)]))
+                    b.qbig(o, m, [k for k in ks if k >= 0], form="abs")
+                    js = sorted(set([-70000, -2, -1, 0, 1, 2, c // 2, c - 1, c, c + 1] + [rnd.randrange(max(1, c)) for _ in range(8)]))
+                    b.qbig(o, m, js, form="rel")
+                b.drop(o)
 
 
 def camp_c07(rnd, tier):
@@ -659,7 +666,7 @@ def camp_c07(rnd, tier):
         o = b.newb(kind, "default")
         bit_rs_queries(b, o, Seqn.from_values([]), rnd, rank=False, select0=(kind == "DA1"))
     # positions beyond 2^32 (the zeros inventory of DA1 over 2^32 leading zeros takes ~10 s: thorough only)
-    big_bits(b, rnd, ["DA0"] if tier == "quick" else ["DA0", "DA1"], nobj=1 if tier == "quick" else 2)
+    big_bits(b, rnd, ["DA0"] if tier == "quick" else ["DA0", "DA1"], nobj=1 if tier == "quick" else 2, fills=(0,) if tier == "quick" else (0, 1))
     return b
 
 
@@ -905,7 +912,7 @@ def camp_c08(rnd, tier):
     b.mut(o, "set_bits", a=[2, 2], w=[0])
     b.meta(o)
     # positions beyond 2^32: len, counters and get of a vector with 2^32 leading zeros
-    big_bits(b, rnd, ["BV"] if tier == "quick" else ["BV", "BVM"])
+    big_bits(b, rnd, ["BV"] if tier == "quick" else ["BV", "BVM"], fills=(0,) if tier == "quick" else (0, 1))
     return b
 
 
